@@ -30,8 +30,10 @@ pub fn run_case(case: &Value) -> Value {
     let (tx, rx) = byte_channel(NonZeroUsize::new(cap).unwrap());
     let mut tx = Some(tx);
     let mut rx = Some(rx);
-    let (rc, rw) = count_waker();
-    let (wc, ww) = count_waker();
+    // several wakers per side: a half may be polled with a different waker each time (another task, a timeout)
+    let nw = case["cfg"]["nw"].as_u64().unwrap_or(1).max(1) as usize;
+    let rws: Vec<_> = (0..nw).map(|_| count_waker()).collect();
+    let wws: Vec<_> = (0..nw).map(|_| count_waker()).collect();
     let mut wpos = 0usize;
     let mut rpos = 0usize;
     let mut obs: Vec<Value> = Vec::with_capacity(acts.len());
@@ -50,13 +52,15 @@ pub fn run_case(case: &Value) -> Value {
             for a in seg {
                 let k = a["k"].as_str().unwrap();
                 let n = a["n"].as_u64().unwrap_or(0) as usize;
-                let r0 = rc.get();
-                let w0 = wc.get();
+                let wi = (a["w"].as_u64().unwrap_or(1).max(1) as usize - 1).min(nw - 1);
+                let (rw, ww) = (&rws[wi].1, &wws[wi].1);
+                let r0: Vec<usize> = rws.iter().map(|(c, _)| c.get()).collect();
+                let w0: Vec<usize> = wws.iter().map(|(c, _)| c.get()).collect();
                 let mut o = match k {
                     "read" => {
                         let mut store = vec![0u8; n];
                         let mut buf = ReadBuf::new(&mut store);
-                        let mut cx = Context::from_waker(&rw);
+                        let mut cx = Context::from_waker(rw);
                         match Pin::new(rx.as_mut().unwrap()).poll_read(&mut cx, &mut buf) {
                             Poll::Pending => json!({"r": "pending"}),
                             Poll::Ready(Ok(())) => {
@@ -71,7 +75,7 @@ pub fn run_case(case: &Value) -> Value {
                     }
                     "write" => {
                         let data: Vec<u8> = (0..n).map(|x| byte_at(wpos + x)).collect();
-                        let mut cx = Context::from_waker(&ww);
+                        let mut cx = Context::from_waker(ww);
                         match Pin::new(tx.as_mut().unwrap()).poll_write(&mut cx, &data) {
                             Poll::Pending => json!({"r": "pending"}),
                             Poll::Ready(Ok(c)) => {
@@ -82,7 +86,7 @@ pub fn run_case(case: &Value) -> Value {
                         }
                     }
                     "flush" => {
-                        let mut cx = Context::from_waker(&ww);
+                        let mut cx = Context::from_waker(ww);
                         match Pin::new(tx.as_mut().unwrap()).poll_flush(&mut cx) {
                             Poll::Pending => json!({"r": "pending"}),
                             Poll::Ready(Ok(())) => json!({"r": "ready"}),
@@ -90,7 +94,7 @@ pub fn run_case(case: &Value) -> Value {
                         }
                     }
                     "shutdown" => {
-                        let mut cx = Context::from_waker(&ww);
+                        let mut cx = Context::from_waker(ww);
                         match Pin::new(tx.as_mut().unwrap()).poll_shutdown(&mut cx) {
                             Poll::Pending => json!({"r": "pending"}),
                             Poll::Ready(Ok(())) => json!({"r": "ready"}),
@@ -107,17 +111,25 @@ pub fn run_case(case: &Value) -> Value {
                     }
                     other => panic!("bad action {}", other),
                 };
-                let dr = rc.get() - r0;
-                let dw = wc.get() - w0;
-                // A Pending whose caller was woken during the call is a cooperative yield.
+                let woke_r: Vec<usize> = (0..nw).filter(|x| rws[*x].0.get() > r0[*x]).map(|x| x + 1).collect();
+                let woke_w: Vec<usize> = (0..nw).filter(|x| wws[*x].0.get() > w0[*x]).map(|x| x + 1).collect();
+                let (dr, dw) = (woke_r.len(), woke_w.len());
+                // A Pending whose caller (the waker it presented) was woken during the call is a cooperative yield.
                 let side_woken = match k {
-                    "read" => dr > 0,
-                    _ => dw > 0,
+                    "read" => woke_r.contains(&(wi + 1)),
+                    _ => woke_w.contains(&(wi + 1)),
                 };
                 if o["r"] == "pending" && side_woken {
                     o["r"] = json!("yield");
                 }
                 o["wake"] = json!(wake_str(dr, dw));
+                // the waker that was woken (0: none; -1: more than one)
+                let all: Vec<usize> = woke_r.iter().chain(woke_w.iter()).copied().collect();
+                o["wid"] = json!(if all.is_empty() { 0i64 } else if all.len() == 1 { all[0] as i64 } else { -1 });
+                if nw > 1 {
+                    o["wokeR"] = json!(woke_r);
+                    o["wokeW"] = json!(woke_w);
+                }
                 obs.push(o);
             }
             Poll::Ready(())
